@@ -65,7 +65,13 @@ impl Env {
             .collect()
     }
     pub fn of_type(&self, ty: Ty) -> Vec<&VarInfo> {
-        self.vars.iter().filter(|v| ty_matches(v.ty, ty)).collect()
+        // an outer variable shadowed by a loop variable of the same name is not visible
+        self.vars
+            .iter()
+            .enumerate()
+            .filter(|(i, v)| ty_matches(v.ty, ty) && !self.vars[i + 1..].iter().any(|w| w.name == v.name))
+            .map(|(_, v)| v)
+            .collect()
     }
     pub fn lookup(&self, n: &str) -> Option<&VarInfo> {
         self.vars.iter().rev().find(|v| v.name == n)
@@ -283,7 +289,11 @@ impl<'a, 'c> Gen<'a, 'c> {
 
     fn fresh_var(&mut self, g: &mut G) -> String {
         self.fresh += 1;
-        // re-using the same loop variable name in nested macros is deliberate
+        // re-using the same loop variable name in nested macros is deliberate; so is, now and then,
+        // the name of an outer variable (shadowing; the name may also occur free in the range)
+        if g.chance(40) {
+            return g.pick_str(&["i", "l", "s", "m", "p"]).to_string();
+        }
         g.pick_str(&["x", "x", "e", "it"]).to_string()
     }
 
